@@ -7,6 +7,7 @@ import (
 	"fmt"
 	"os"
 	"sort"
+	"strings"
 
 	"verif/harness"
 	"verif/model"
@@ -33,7 +34,11 @@ func main() {
 	prop := flag.String("prop", "", "property id")
 	tier := flag.String("tier", "", "quick|thorough")
 	replay := flag.String("replay", "", "replay a violation artefact")
+	crashLog := flag.String("crashlog", "", "report that the driver process died (output in this file)")
 	flag.Parse()
+	if *crashLog != "" {
+		os.Exit(reportCrash(*prop, *tier, *crashLog))
+	}
 	if *replay != "" {
 		os.Exit(doReplay(*replay))
 	}
@@ -53,3 +58,29 @@ func main() {
 }
 
 func osExit(code int) { os.Exit(code) }
+
+// reportCrash turns a driver process that died (Go fatal error: stack
+// exhaustion, concurrent map write, out of memory — none of which recover()
+// can catch) into a violation with an artefact, instead of a silent tooling error.
+func reportCrash(prop, tier, logPath string) int {
+	r := harness.Start(prop, tier)
+	data, _ := os.ReadFile(logPath)
+	text := string(data)
+	cause := "driver process died without a verdict"
+	for _, l := range strings.Split(text, "\n") {
+		if strings.HasPrefix(l, "fatal error:") || strings.HasPrefix(l, "panic:") || strings.HasPrefix(l, "runtime:") {
+			cause = l
+			break
+		}
+	}
+	if len(text) > 3000 {
+		text = text[:1500] + "\n…\n" + text[len(text)-1500:]
+	}
+	r.Rule = "the check process crashed before completing its universe"
+	r.Sample(map[string]interface{}{"crash": cause})
+	r.Cap("the driver process crashed: " + cause)
+	r.Report(harness.Violation{Kind: "crash", Signature: "process-crash:" + cause,
+		Input:    map[string]interface{}{"note": "a fatal runtime error killed the check while library code was running; re-run with VERIF_WORKERS=1 to localise"},
+		Expected: "Compile/Search return on every enumerated case", Observed: text})
+	return r.Finish(harness.Coverage{Exhaustive: false})
+}
